@@ -299,6 +299,9 @@ def _catalogue():
     # D26 an action that may report pending beside a with-items task with more items than its concurrency
     add("D26", {"s": T([("any", [], ["a", "w"])]), "a": T([("ok", [], ["d"])]), "w": T(items=3, conc=1), "d": T()},
         inputs={"xs": [10, 11, 12]}, input_decl=["xs"])
+    # D27 a task with one non-publishing transition into a join and a sibling task; an ancestor published
+    add("D27", {"s": T([("any", ["p"], ["l", "r"])]), "l": T([("any", [], ["j", "n"])]), "r": T([("any", ["q"], ["j"])]),
+                "j": T(join="all"), "n": T([("any", [], ["n2"])]), "n2": T()}, vars={"x": "init"}, output=["x", "p"])
     # D06p split routes with publishes
     add("D06p", {"s": T([("any", ["x"], ["a", "b"])]), "a": T([("any", ["y"], ["m"])]),
                  "b": T([("any", ["x"], ["m"])]), "m": T([("any", ["w"], ["n"])]), "n": T()},
